@@ -233,6 +233,7 @@ def run(ctx):
         'helper_dir_cases': len(dirs), 'helper_ignored_cases': len(igns), 'helper_ignored_true': n_suppressed,
         'helper_keys_cases': len(keys), 'helper_carry_cases': len(carries),
         'e2e_cases': len(e2e), 'e2e_cases_where_a_directive_suppressed_something': len(effective),
+        'e2e_cases_where_the_target_disappeared': len([c for c in e2e if c['target'] in c['before'] and shifted_target(c) not in c['after']]),
         'e2e_h_shift_failed (hypothesis not met, prediction skipped)': len([c for c in e2e if not c['h_shift']]),
         'e2e_inserted_below_an_existing_directive': len([c for c in e2e if c['own_above']]),
         'agg_cases': len(agg), 'skipped': dict(skipped),
@@ -253,3 +254,11 @@ def run(ctx):
         'excluded from the prediction, not from the filter correspondence',
         'rule bodies, the OPA parser and evaluator are oracles (raw violations and comments are observed)',
     ])
+
+
+def shifted_target(c):
+    t = dict(c['target'])
+    q = {'above': 0, 'same': 0, 'two-above': -1, 'below': 1}[c['place']] + t['row']
+    if c['place'] != 'same' and t['row'] >= q:
+        t['row'] += 1
+    return t
